@@ -1,4 +1,5 @@
 import Pms.Props.C13
+import Pms.Props.C13Mod
 
 #print axioms Pms.Cond.C13_dispatch
 #print axioms Pms.Cond.C13_gr_def
@@ -17,3 +18,4 @@ import Pms.Props.C13
 #print axioms Pms.Cond.C13_weight_complex
 #print axioms Pms.Cond.C13_sq_complex
 #print axioms Pms.Cond.C13_hypotheses_satisfiable
+#print axioms Pms.ModShape.C13_module_shape
